@@ -91,11 +91,11 @@ class API:
         rows.append(ns_row(ns))
         return rows
 
-    def rec_(self, ns, kind, *args):
+    def rec_(self, ns, kind, *args, snap=None):
         if veneer.currentSimulation is None:
             return 0
         alive = [self.sid(s) for s in veneer.runningScenarios]
-        self.log.append([kind, *args, alive, self.snapshot(ns)])
+        self.log.append([kind, *args, alive, snap if snap is not None else self.snapshot(ns)])
         return 0
 
     def now(self):
@@ -160,7 +160,8 @@ class FaultySimulation(DummySimulation):
             raise Injected(where)
 
     def createObjectInSimulator(self, obj):
-        if self.fault and self.fault[0] == "create" and len(self.objects) - 1 == self.fault[1] % 3:
+        self._ncreate = getattr(self, "_ncreate", 0) + 1
+        if self.fault and self.fault[0] == "create" and self._ncreate - 1 == self.fault[1] % 3:
             # a simulator interface that has already written properties of the object when it fails
             obj.foo = 555
             obj.position = Vector(obj.position.x, 7, 0)
@@ -176,11 +177,13 @@ class FaultySimulation(DummySimulation):
 
     def step(self):
         self._maybe("step")
+        cur = A.snapshot(self._ns)
         super().step()
         self._nstep += 1
-        # the simulator's write of a dynamic property, as seen through the objects
+        # the simulator's write of a dynamic property, as seen through the objects (one write per object)
         for i, o in enumerate(self.objects[:NOBJ]):
-            A.rec_(self._ns, "W", i, 3, o.position.y)
+            cur[i][3] = o.position.y
+            A.rec_(self._ns, "W", i, 3, o.position.y, snap=[list(r) for r in cur])
 
     def getProperties(self, obj, properties):
         self._maybe("readback")
@@ -388,6 +391,9 @@ def main():
                 outs.append(run_program(p))
         except BaseException:
             outs.append(dict(name=p["name"], crash=traceback.format_exc()[-1500:]))
+    import shutil
+
+    shutil.rmtree(os.path.join(os.environ.get("VERIF_C14_TMP", "/tmp"), f"verif_c14_{os.getpid()}"), ignore_errors=True)
     print(json.dumps(dict(results=outs)))
 
 
